@@ -3,6 +3,7 @@ package main
 import (
 	"bufio"
 	"fmt"
+	"go/types"
 	"os"
 	"regexp"
 	"strings"
@@ -20,7 +21,17 @@ type LoopSpec struct {
 	Decreases *Expr
 }
 
+// CallSiteSpec is an assertion attached to calls of Callee inside the function
+// under contract: evaluated with the callee's parameter names bound to the
+// actual arguments (plus the enclosing function's parameters). Ord 0 = every call.
+type CallSiteSpec struct {
+	Callee string
+	Ord    int
+	Clause Clause
+}
+
 type FuncContract struct {
+	CallSites   []CallSiteSpec
 	File        string
 	Line        int
 	PkgPath     string // package the contract file lives in
@@ -29,6 +40,7 @@ type FuncContract struct {
 	Props       []string
 	Mode        ArithMode
 	Requires    []Clause
+	Where       []Clause // ghost bindings assumed at entry, not checked at call sites
 	Ensures     []Clause
 	Modifies    []*Expr
 	Assigns     []string // ghost variables the function may change
@@ -37,6 +49,8 @@ type FuncContract struct {
 	Loops       map[string]*LoopSpec
 	LoopOrder   []string
 	Inline      bool
+	Logged      bool   // maintain call-log ghost variables calls_<Name>, arg_<Name>_<param>
+	LogName     string
 	Trusted     bool
 	NoSafe      bool
 	EffectFree  bool
@@ -65,6 +79,8 @@ type GhostVar struct {
 	Name    string
 	Type    string
 	PkgPath string
+	Ty      types.Type // resolved type (call-log variables)
+	Math    bool       // mathematical integer
 }
 
 type ContractFile struct {
@@ -81,7 +97,7 @@ type ContractFile struct {
 var clauseKeywords = map[string]bool{
 	"func": true, "lemma": true, "extern": true, "opaque": true, "pure": true, "props": true, "arith": true,
 	"requires": true, "ensures": true, "modifies": true, "loop": true, "inline": true, "trusted": true,
-	"nosafe": true, "effectfree": true, "uses": true, "ghost": true, "assigns": true,
+	"nosafe": true, "effectfree": true, "uses": true, "ghost": true, "assigns": true, "logged": true, "callsite": true, "where": true,
 }
 
 var labelRe = regexp.MustCompile(`^([A-Za-z_][A-Za-z0-9_]*)\s*:\s*([^:=].*)$`)
@@ -307,6 +323,28 @@ func ParseContractFile(path, pkgPath string) (*ContractFile, error) {
 				}
 			case "assigns":
 				cur.Assigns = append(cur.Assigns, strings.FieldsFunc(rest, func(r rune) bool { return r == ',' || r == ' ' })...)
+			case "callsite":
+				// callsite Name@N: label: expr     (N may be *)
+				head, body, ok := strings.Cut(rest, ":")
+				if !ok {
+					addErr(rc.line, "callsite <callee>@<n|*>: <expr>")
+					continue
+				}
+				callee, ordS, _ := strings.Cut(strings.TrimSpace(head), "@")
+				ord := 0
+				if ordS != "" && ordS != "*" {
+					fmt.Sscanf(ordS, "%d", &ord)
+				}
+				if c, ok := parseClause(rc.line, strings.TrimSpace(body), fmt.Sprintf("c%d", len(cur.CallSites)+1)); ok {
+					cur.CallSites = append(cur.CallSites, CallSiteSpec{Callee: strings.TrimSpace(callee), Ord: ord, Clause: c})
+				}
+			case "where":
+				if c, ok := parseClause(rc.line, rest, fmt.Sprintf("w%d", len(cur.Where)+1)); ok {
+					cur.Where = append(cur.Where, c)
+				}
+			case "logged":
+				cur.Logged = true
+				cur.LogName = strings.TrimSpace(strings.TrimPrefix(rest, "as"))
 			case "inline":
 				cur.Inline = true
 			case "trusted":
